@@ -826,6 +826,22 @@ def mutate (c : Cfg) (o : Obj) (meth : String) (a : List String) : Option (Optio
         | .ok r => (some (.efb r.1 u cap sp.1), ⟨okErr r.2, .eq (okErr sp.2)⟩)
         | .error _ => (none, ⟨"panic", .eq (okErr sp.2)⟩))
     | _, _ => none)
+  -- enabling an index (again): the builder methods may be applied to a structure that already has the index, e.g. after
+  -- `build_from_bits(.., true, true, true)` or a round trip; the value they describe does not change
+  | .r9 m s => (match meth, a with
+    | "select1_hints", [] => some (match m.select1Hints with | .ok m' => (some (.r9 m' s), ⟨"ok", .eq "ok"⟩) | .error _ => (none, ⟨"panic", .eq "ok"⟩))
+    | "select0_hints", [] => some (match m.select0Hints c with | .ok m' => (some (.r9 m' s), ⟨"ok", .eq "ok"⟩) | .error _ => (none, ⟨"panic", .eq "ok"⟩))
+    | _, _ => none)
+  | .da m s => (match meth, a with
+    | "enable_rank", [] => some (some (.da (m.enableRank c) s), ⟨"ok", .eq "ok"⟩)
+    | "enable_select0", [] => some (some (.da (m.enableSelect0 c) s), ⟨"ok", .eq "ok"⟩)
+    | _, _ => none)
+  | .sa m s => (match meth, a with
+    | "enable_rank", [] => some (some (.sa (m.enableRank c) s), ⟨"ok", .eq "ok"⟩)
+    | _, _ => none)
+  | .ef m u xs => (match meth, a with
+    | "enable_rank", [] => some (some (.ef (m.enableRank c) u xs), ⟨"ok", .eq "ok"⟩)
+    | _, _ => none)
   | _ => none
 
 /-! ### iterators -/
